@@ -9,7 +9,9 @@ PROPERTY = "C08"
 LEVEL = "exploration"
 FAMILY = "C08"
 RULE = (
-    "cases = histories of 5-50 operations (thorough 5-80) over 6 keys and a capacity of 1-96 bytes against the real Manager on "
+    "cases = histories of 5-50 operations (thorough 5-80) over 6 keys and a capacity of 1-96 bytes (a seventh of them 8192 / 12288 "
+    "bytes with datasets of 4095 / 4096 / 4097 / 8192 bytes: the disk code moves 4096-byte chunks; a fifth of the stores are "
+    "configured with more than the mount offers and must trim themselves) against the real Manager on "
     "/dev/shm: allocate(key, size) from any number of concurrent writers, finish-write, get, close-read, purge, complete the i-th "
     "pending page-out/page-in job successfully or as a failure (lazy disk: any completion order; a job can also be stopped "
     "between its disk work and its completion callback), advance the virtual clock (ms, "
